@@ -361,6 +361,7 @@ def run_impl(ctx, stream, ops, np=None):
     if np is not None:
         cmd = ['mpiexec', '--allow-run-as-root', '--oversubscribe', '-n', str(np)] + cmd
         env['OMPI_MCA_rmaps_base_oversubscribe'] = '1'
+        env['OMPI_MCA_mpi_yield_when_idle'] = '1'
     data = '\n'.join(ops) + '\n'
     try:
         p = subprocess.run(cmd, input=data, capture_output=True, text=True, timeout=stream.timeout, env=env,
